@@ -48,6 +48,23 @@ class Prop(BaseProp):
         out = []
         self.twins = []
         ops = UN + BIN + SC + ['powi']
+
+        def twins(ty, op, a, aux):
+            b = [genvals.densify(x, ty) for x in a]
+            c = [partial_dense(rng, x, ty) for x in a]
+            ids = []
+            for tag, args in (('absent', a), ('dense', b), ('mixed', c)):
+                cs = Case('c%d' % len(out), ty, op, args, aux, tag=tag)
+                out.append(cs)
+                ids.append(cs.id)
+            self.twins.append(ids)
+        # two-operand operations with one operand a constant (EVERY part absent) and the other with every part present, both ways round:
+        # the patterns a 'constant operand' fast path would key on (random presence reaches them only with probability 3^-k)
+        for ty in tys:
+            for op in BIN:
+                for pa, pb in ((True, False), (False, True)):
+                    a = [genvals.gen_value(rng, ty, genvals.leaf_rand, re_leaf=lambda r: r.uniform(0.3, 3), presence=pp) for pp in (pa, pb)]
+                    twins(ty, op, a, [])
         k = 0
         while len(out) < n:
             ty = tys[k % len(tys)]
@@ -65,14 +82,7 @@ class Prop(BaseProp):
             if op == 'powi':
                 aux = [rng.choice([0, 1, 2, 3, 4, -1, -2, 5])]
             a = [genvals.gen_value(rng, ty, genvals.leaf_rand, re_leaf=dom) for _ in range(nargs)]
-            b = [genvals.densify(x, ty) for x in a]
-            c = [partial_dense(rng, x, ty) for x in a]
-            ids = []
-            for tag, args in (('absent', a), ('dense', b), ('mixed', c)):
-                cs = Case('c%d' % len(out), ty, op, args, aux, tag=tag)
-                out.append(cs)
-                ids.append(cs.id)
-            self.twins.append(ids)
+            twins(ty, op, a, aux)
         return out
 
     def extra_checks(self):
@@ -140,7 +150,7 @@ class Prop(BaseProp):
         return impl != 'panic' and case.tag == 'absent'
 
     def rule_text(self):
-        return ('triples per (vector type, operation): operands with random presence pattern, the same with every absent part written as explicit zeros, and a random '
+        return ('triples per (vector type, operation): operands with random presence pattern (two-operand operations also with one operand entirely constant and the other entirely present, both ways round), the same with every absent part written as explicit zeros, and a random '
                 'partial replacement; all parts of the three results must be numerically equal; plus sequences of 6 random compound assignments on an accumulator in two '
                 'representations, compared after every step; distinct by (type, op, operand bits); non-trivial = the absent-representation case without panic')
 
